@@ -224,7 +224,7 @@ func Chunks[T any, Slice ~[]T](vs Slice, n int) []Slice {
 	if n < 0 {
 		panic("max must be positive")
 	} else if n == 0 || n >= len(vs) {
-		return []Slice{vs}
+		return []Slice{vs[:len(vs):len(vs)]} // clip, as for every other chunk
 	}
 	out := make([]Slice, 0, (len(vs)+n-1)/n)
 	i := 0
